@@ -410,11 +410,14 @@ Definition cmp_seq (a b : list pt) : comparison := lex (Nat.compare (length a) (
 (* Geometry::compareTo on two curves of the same class: empty < non-empty *)
 Definition cmp_curve (a b : list pt) : comparison :=
   match a, b with [], [] => Eq | [], _ => Lt | _, [] => Gt | _, _ => cmp_seq a b end.
-Fixpoint cmp_list {A} (c : A -> A -> comparison) (a b : list A) : comparison :=   (* Geometry::compare(vector,vector) *)
-  match a, b with
-  | x :: ra, y :: rb => lex (c x y) (cmp_list c ra rb)
-  | [], [] => Eq | [], _ => Lt | _, [] => Gt
-  end.
+Section CmpList.                (* Geometry::compare(vector, vector); the comparator is a section variable so that nested recursion is accepted *)
+  Context {A : Type} (c : A -> A -> comparison).
+  Fixpoint cmp_list (a b : list A) : comparison :=
+    match a, b with
+    | x :: ra, y :: rb => lex (c x y) (cmp_list ra rb)
+    | [], [] => Eq | [], _ => Lt | _, [] => Gt
+    end.
+End CmpList.
 Definition sort_index (g : geom) : Z :=
   match g with
   | GPoint _ => 0 | GLine _ => 2 | GRing _ => 3 | GPoly _ _ => 5
@@ -432,12 +435,7 @@ Fixpoint cmp_geom (a b : geom) {struct a} : comparison :=
     | GLine c1, GLine c2 => cmp_seq c1 c2
     | GRing c1, GRing c2 => cmp_seq c1 c2
     | GPoly s1 h1, GPoly s2 h2 => cmp_poly s1 h1 s2 h2
-    | GColl _ g1, GColl _ g2 =>
-        (fix cl (l1 l2 : list geom) {struct l1} : comparison :=
-           match l1, l2 with
-           | x :: r1, y :: r2 => lex (cmp_geom x y) (cl r1 r2)
-           | [], [] => Eq | [], _ => Lt | _, [] => Gt
-           end) g1 g2
+    | GColl _ g1, GColl _ g2 => cmp_list (fun x y => cmp_geom x y) g1 g2
     | _, _ => Eq
     end
   | c => c
